@@ -684,7 +684,7 @@ func (i *Interpreter) ProcessError() error {
 	}
 
 	switch state {
-	case DELIVER:
+	case DELIVER, DELIVER_STALE:
 		i.Debugger.Message(fmt.Sprintf("Move state: %s -> DELIVER", i.ctx.Scope))
 		err = i.ProcessDeliver()
 	case RESTART:
